@@ -2,11 +2,11 @@
 namespace Elvis.Gen
 /-- TTL handling of `ArpRouter::demux`, statement by statement (dev profile: checked `-=`):
     `.error` = panic, `.ok none` = `return Ok(())` (datagram dropped), `.ok (some t)` = forwarded with TTL t.
-    Source statements: sub 1; drop == 0 -/
+    Source statements: drop <= 1; sub 1 -/
 def routerTtlKernel (ttl : Nat) : Except String (Option Nat) :=
+  if decide (ttl ≤ 1) then .ok none else
   if ttl < 1 then .error "panic:sub:ArpRouter::demux:time_to_live" else
   let ttl := ttl - 1
-  if ttl == 0 then .ok none else
   .ok (some ttl)
 
 def routerDemuxSendSites : Nat := 1
